@@ -11,8 +11,8 @@ CHECK = {
                  "(3) root-counting theorem (Mathlib polynomials) binding a plain instance column through its Lagrange evaluation at x, now also proved for the EXECUTABLE "
                  "natural-number function C02.instanceEvals (cast to ZMod p it is the field-level instEval; binding transported); "
                  "(4) model of the buffer hashed into VerifyingKey::transcript_repr with an injectivity theorem and a field-coverage theorem over lists regenerated from the Rust "
-                 "sources, plus a field-by-field model of what Debug for PinnedConstraintSystem prints (order regenerated) with the theorem that equal printed fields give equal "
-                 "constraint-system views EXCEPT the phase of unqueried advice columns when there is no challenge, and the counterexample; "
+                 "sources, plus a field-by-field model of what Debug for PinnedConstraintSystem prints (order AND the condition of the multi-phase block regenerated) with the theorem "
+                 "that equal printed fields give equal constraint-system views - no field left out since the repair caa493e - and the regression pair; "
                  "(5) model of the verification entry points at the parsing level (BlstPLONK::verify, zk_stdlib::batch_verify) whose exhaustion check is taken from the "
                  "regenerated list of assert_empty call sites (receiver, prepared transcript, position, conditionality), with batch_accepted_length / batch_parse_iff; "
                  "+ mutation sweep of real proofs/statements/keys through every entry point",
@@ -29,7 +29,7 @@ CHECK = {
             "and reject every mutant; "
             "MINI circuit (mini.rs): key variants differing in one selector row / one copy constraint / one fixed cell / k (repr must differ, proof rejected), public-input edits "
             "across the two columns (swap, move, extend, truncate), zero-padding moved between columns, exhaustive search over 142 small public-input tables for two that the real "
-            "prepare absorbs identically, and the advice-phase experiment (two circuits with equal transcript_repr: see level_note); "
+            "prepare absorbs identically, and the advice-phase regression pair (two circuits differing only in the phase of an unqueried advice column, no challenge: transcript_reprs must differ, cross-verification must be rejected; fixed caa493e); "
             "correspondence lines: proof layout, instance stream, scalar decoder (both readers), point decoder (both readers) on boundary encodings, to_input of points under both hashes, "
             "`absorbed` = the complete framed stream the real hash state absorbed for every real proof (real CircuitTranscript + prepare over a logging hash state; framing re-derived by "
             "an independent BLAKE2b state / sponge that must reproduce every squeeze output) vs the model's stream computed from the statement and the PARSED proof bytes, "
@@ -41,7 +41,7 @@ CHECK = {
                    "absorbed_stream_injective (+_any, _poseidon), changed_value_changes_stream, statement_injective, proof_parse_injective (generic over a canonical point decoder), "
                    "proof_parse_injective_g1_partial (kept) and proof_parse_injective_g1 / parsed_reencodes_g1 (full: decoded_point_no_order2), parsed_length, parsed_reencodes, "
                    "instance_eval_binds (+_lists), instance_eval_pad_invisible, instance_evals_exec_is_inst_eval, instance_eval_binds_exec, vk_repr_input_injective, vk_repr_covers, "
-                   "csDebugFieldNames_eq, vk_repr_injective_on_verifier_view_partial, vk_repr_gap_exhibited, entry_points_enforce_exhaustion, batch_member_ops_roles, "
+                   "pinned_phase_condition, csDebugFieldNames_eq, vk_repr_injective_on_verifier_view_partial (equal printed fields => equal CSView, all members; `_partial` only for the opaque Debug formatting of individual members), pinned_fields_separate_phase_pair, entry_points_enforce_exhaustion, batch_member_ops_roles, "
                    "batch_accepted_length, verify_parse_eq, batch_parse_iff, batch_first_bad_none_iff, blake_framing_constants, poseidon_and_limb_constants. "
                    "Tie: every `absorbed` line compares the whole absorbed stream of a real verification with the model's (so a dropped/reordered absorb, a changed prefix, encoding, "
                    "padding or limb layout changes an impl.txt line or makes it MISMATCH); the driver additionally checks on each such line that the values at the absorb events of the "
@@ -62,13 +62,12 @@ CHECK = {
                   "for a fixed schedule; proof parsing is injective and length-exact for the real decoder without side condition (the decoder never returns a point with y = 0); "
                   "every verification entry point of zk_stdlib (verify, batch_verify) enforces exhaustion of each member's own proof bytes (call sites regenerated from the source); "
                   "a plain instance column is bound by its evaluation outside <= m-1 points, also at the level of the executable C02.instanceEvals; the transcript_repr hash input "
-                  "is injective in k / commitments / descriptions, and covers every member of the pinned constraint system except the phase of unqueried advice columns of a circuit "
-                  "without challenges (proved, with counterexample). The consequence 'every mutant is rejected by every entry point' is observed by an exhaustive-per-element and "
+                  "is injective in k / commitments / descriptions, and the printed field list of the pinned constraint system determines every member of it, "
+                  "advice_column_phase included (condition of the multi-phase block regenerated from the source; repaired in /repo caa493e). The consequence 'every mutant is rejected by every entry point' is observed by an exhaustive-per-element and "
                   "per-byte sweep on real proofs, not proved (needs ROM + KZG binding)",
-    "level_note": "partial: cryptographic binding (hash ROM, KZG) assumed; KNOWN FINDING (findings/C03.json): transcript_repr does not cover advice_column_phase when num_challenges = 0 "
-                  "(Debug for PinnedConstraintSystem prints it only with challenges) - two real circuits differing only in the phase of an unqueried advice column have the same "
-                  "transcript_repr while their verifiers read the advice commitments in different orders, and a proof for one is accepted under the key of the other when the "
-                  "unqueried column duplicates a queried unblinded column; injectivity of the Debug formatting of individual members not modelled; Guard::batch_verify and the "
+    "level_note": "partial: cryptographic binding (hash ROM, KZG) assumed; FIXED finding (findings/C03.json, /repo caa493e): transcript_repr did not cover advice_column_phase when "
+                  "num_challenges = 0 - kept as a regression case (MiniCircuit pair) and as a generated-constant theorem (pinned_phase_condition); the only remaining gap of "
+                  "vk_repr_injective_on_verifier_view_partial is that the injectivity of the Debug formatting of individual members (gates, query lists, ...) is assumed, not modelled; Guard::batch_verify and the "
                   "aggregator (LightAggregator::aggregate_proofs / verify call prepare without assert_empty: trailing-bytes checks are the caller's) are swept / listed "
                   "(Gen.otherPrepareCallers) but not modelled; the in-circuit path is not exercised by this check (C20)",
     "timeout": {"quick": 1500, "thorough": 10800, "search": 2400},
